@@ -32,6 +32,7 @@ func cmdStress(args []string) int {
 	async := fs.Bool("async", false, "async pruning")
 	latest := fs.Bool("latest", false, "readers may read the published latest version during commits")
 	backend := fs.String("backend", "memdb", "memdb|leveldb")
+	npool := fs.Int("pool", 24, "number of distinct keys")
 	_ = fs.Parse(args)
 
 	var db interface {
@@ -75,9 +76,9 @@ func cmdStress(args []string) int {
 	stop := make(chan struct{})
 	var wg sync.WaitGroup
 
-	pool := make([][]byte, 24)
+	pool := make([][]byte, *npool)
 	for i := range pool {
-		pool[i] = []byte(fmt.Sprintf("k%02d", i))
+		pool[i] = []byte(fmt.Sprintf("k%03d", i))
 	}
 
 	reader := func(id int) {
